@@ -244,9 +244,12 @@ class FilePoolAdapter:
                 h = self._call(w, lambda: pool[w["paths"][op["f"]]])
             except KeyError:
                 return []
-            if h.closed or os.path.abspath(h.name) != os.path.abspath(w["paths"][op["f"]]) or h.mode != self.MODES[w["mode"]]:
-                raise Unexpected("pool[path] is not an open handle of that path in the requested mode")
-            return [1]
+            if os.path.abspath(h.name) != os.path.abspath(w["paths"][op["f"]]) or h.mode != self.MODES[w["mode"]]:
+                raise Unexpected("pool[path] is not a handle of that path in the requested mode")
+            return [0 if h.closed else 1]
+        if n == "close_one":
+            self._call(w, lambda: pool[w["paths"][op["f"]]].close())
+            return []
         if n == "len":
             return [self._call(w, lambda: len(pool))]
         if n == "iter":
@@ -323,8 +326,8 @@ def run(ctx):
         st = graphwalk.walk(g, TmpAdapter(f), ctx, name, op_timeout=20.0, paths_per_state=3, history_ops=("flush", "remove", "ext_delete"))
         ctx.note("walk %s" % st)
     consts = {"NFiles": 2 if quick else 3, "Variant": '"ok"'}
-    invs = ["AllOpenInside", "AllClosedOutside"]
-    model.mc(FP, consts, ctx, "FilePool", invariants=invs)
+    invs = ["AllClosedOutside"]
+    model.mc(FP, consts, ctx, "FilePool", invariants=invs, properties=["AllOpenInside", "OnlyBodyCloses"])
     model.mc(FP, dict(consts, Variant='"leak"'), ctx, "FilePool_neg", invariants=invs, expect_violation=True)
     g, _ = graphwalk.emit_graph(FP, model.cfg_text(consts, view="View", action_constraint="Emit"), ctx, "FilePool")
     st = graphwalk.walk(g, FilePoolAdapter(f), ctx, "FilePool", op_timeout=10.0)
